@@ -332,6 +332,10 @@ def new_process_render(env):
     return out, True
 
 
+class BaselineWrong(Exception):
+    """the undisturbed construction already renders something else than the current source"""
+
+
 def fault_cases(env, init, tier):
     """returns (log of the undisturbed run, old bytes, new bytes, list of plans)"""
     cur = setup_initial(env, init)
@@ -339,7 +343,9 @@ def fault_cases(env, init, tier):
     old = env.module_bytes()
     env.log = []
     t = env.construct()
-    assert t.render() == marker(cur), (init, t.render())
+    got = t.render()
+    if got != marker(cur):
+        raise BaselineWrong(init, marker(cur), got)
     log = list(env.log)
     new = env.module_bytes()
     plans = []
@@ -689,7 +695,12 @@ def run_job(job):
         env = Env()
         try:
             init = job["init"]
-            cur, snap, log, old, new, plans = fault_cases(env, init, job["tier"])
+            try:
+                cur, snap, log, old, new, plans = fault_cases(env, init, job["tier"])
+            except BaselineWrong as e:
+                st.states += 1
+                st.violation("baseline:render-after-write", {"kind": "baseline", "init": init}, "after a (re)write the Template renders the current source", expected=e.args[1], observed=e.args[2])
+                return st
             st.extra.setdefault("intercepted_calls", {})[init] = log
             for plan in plans:
                 outcome, where, viols = run_fault(env, init, cur, snap, old, new, plan, st)
@@ -742,6 +753,16 @@ def post(tier, seed, st):
 
 def replay(case):
     st = Stats()
+    if case.get("kind") == "baseline":
+        env = Env()
+        try:
+            try:
+                fault_cases(env, case["init"], "quick")
+            except BaselineWrong as e:
+                return False, "reproduced: baseline renders %r, expected %r" % (e.args[2], e.args[1])
+        finally:
+            env.close()
+        return True, "holds"
     if case.get("kind") == "fault":
         env = Env()
         try:
